@@ -23,6 +23,7 @@ def parse_arr(s):
 ENTRIES = False          # every op also through its other public entry points: Tensor method, operator, nn layer class
 SPELLINGS = False        # set together with LAYOUTS: integer arguments also arrive as NumPy integers, tuples also as lists
 SPELL_OPS = ('concat', 'stack', 'unbind', 'sum', 'mean', 'squeeze', 'unsqueeze', 'reshape', 'movedim', 'transpose', 'flatten')
+DTYPE_KW = False         # set by C07 / C10: a leaf's dtype also arrives as the constructor's `dtype=` argument over float data
 RESET_ROUTES = False     # set by the property modules about gradient histories: `t zero` goes through Tensor.zero_ / Module.zero_grad / Optimizer.zero_grad in turn
 LAYOUTS = False          # set by the property modules whose input space includes the memory layout of leaf arrays
 LAYOUT_NAMES = ['C', 'C', 'F', 'strided', 'reversed', 'offset', 'transposed']
@@ -262,7 +263,14 @@ class Impl:
             a = np.array(common.parse_floats(t[5]), dtype=np.float64).reshape(shape).astype(DT[t[2]])
             if LAYOUTS:      # same values, another memory layout (Tensor keeps the caller's ndarray as it is)
                 a = relayout(a, LAYOUT_NAMES[sum(map(ord, t[5][:64])) % len(LAYOUT_NAMES)])
-            if RESET_ROUTES and sum(map(ord, t[5][:64])) % 2 == 0:      # half of the leaves are nn.Parameter objects (a Tensor subclass)
+            kw = sum(map(ord, t[5][:64] + t[3])) % 4
+            if DTYPE_KW and kw in (1, 2):
+                # the dtype arrives as the `dtype=` argument while the data are still Python floats / a float64 array (the
+                # constructor casts): Tensor(...) and the factory function synapgrad.tensor(...)
+                raw = np.array(common.parse_floats(t[5]), dtype=np.float64).reshape(shape)
+                raw = raw.tolist() if kw == 2 else raw
+                x = (sg.Tensor if kw == 1 else sg.tensor)(raw, requires_grad=bool(int(t[4])), dtype=DT[t[2]])
+            elif RESET_ROUTES and sum(map(ord, t[5][:64])) % 2 == 0:      # half of the leaves are nn.Parameter objects (a Tensor subclass)
                 from synapgrad.nn.modules import Parameter
                 x = Parameter(a, requires_grad=bool(int(t[4])))
             else:
